@@ -272,7 +272,9 @@ static void tr_internals(Run *r) {
         /* the root frame's argn follows the produce schedule; report it relative to pending */
         tx_printf(&r->tr, ":%s,%x,%d,%d,%zu,%zu", cn, (unsigned) s->flags, (int) s->counter, i == 0 ? (int)(s->argn - (int32_t) p->pending) : (int) s->argn, s->line, s->column);
     }
-    tx_printf(&r->tr, ":a%zu ", p->argcount - p->pending);
+    /* capacities of the three stacks (model: lean/JanetModel/Parse/Cap.lean) */
+    /* separate, un-keyed token: capacities legitimately depend on the schedule (clone points, parser/state calls) */
+    tx_printf(&r->tr, ":a%zu cap:%zu,%zu,%zu ", p->argcount - p->pending, p->bufcap, p->statecap, p->argcap);
 }
 static void handle_error(Run *r) {
     Janet out;
